@@ -298,6 +298,18 @@ func checkC05(p *Program, r *Report) {
 	// serialisation is padded (C05-agent5-m2: hand-compressed public key with an unpadded X coordinate)
 	keyPureRule(p, r, "C05.pure", []string{"(*ExtendedKey).String", "NewKeyFromString"}, "serialising / parsing writes nothing reachable from the key or the arguments")
 	r.Floor("C05.pure", 2)
+	// round 6 (C05-agent6-m2): "parses back to a key with identical … derivation behaviour" — a parsed key derives
+	// like any other, so what C04 decides about Child / the key's memos holds for keys that came from a string too
+	// (a point cached by the parser and advanced in place by Child made every child after the first one wrong)
+	r.Borrow("C04", func(o *Ob) (string, bool) {
+		if o.Rule == "C04.pure" || o.Rule == "C04.memo" {
+			return "C05.derive", true
+		}
+		return "", false
+	})
+	r.Floor("C05.derive", 3)
+	// round 6: a fixed-length digit buffer in a big.Int-free Base58 conversion must be long enough (shared with C07.exact)
+	radixBufferRule(p, r, "C05.canon")
 	if padObligations(p, r, "C05.pad", pkgFuncs(p, "hdkeychain")) == 0 {
 		r.Unresolved("C05.pad", "a (*big.Int).Bytes() source in hdkeychain")
 	}
